@@ -9,13 +9,20 @@ line was handed over; concurrent requests never mix.
      body x every split into reads x every end flavour, for one request and for two successive requests
      (second body shorter); every case is exported with the declaratively expected lines;
    * concurrent configuration: two requests interleaved at the granularity of the shared operations
-     (SidExclusive, NoMixing);
+     (SidExclusive, NoMixing); buffers have identity and are OWNED from the pool Get to the explicit Put step, the
+     In call of the final flush is not atomic (the pipeline may copy the bytes later): BufOwned, PendingStable;
    * spec mutants (carry-over dropped, final flush missing / unconditional, pooled buffer not re-sliced,
-     status before the flush, source id released early) must each be REJECTED by the invariants.
+     status before the flush, source id released early, buffers put back before the last In) must each be
+     REJECTED by the invariants; for the last one TLC must also construct the window "another request takes
+     the buffer between the Put and the moment the pending In copies the bytes" from the observable invariants.
 2. Every exported case is replayed on the REAL plugin (real Start with address "off", real ServeHTTP),
    plain and gzip; a seeded family blows the symbols up so that lines cross the real read buffer; a seeded
    family serves requests over disjoint alphabets in parallel on one plugin (with and without a rendezvous
-   inside Read).  In-calls, status and its position are compared with the specification's expectation.
+   inside Read); a seeded family constructs the blocked-In window on the real plugin: the recording controller's In
+   parks on request A's k-th call (mostly its unterminated last line) BEFORE the bytes are copied, request B (line
+   split over two reads, carry-over written into a pooled buffer) is served meanwhile from inside that call, then A's
+   In goes on; once with GOMAXPROCS(1), once with the default.  In-calls (bytes as the pipeline would copy them),
+   status and its position are compared with the specification's expectation.
 """
 import json
 import os
